@@ -379,6 +379,33 @@ def w_inverse(ctx, rng, i):
         except Exception:
             v0 = None
         if v0 is not None and v0.size and not kind.startswith("Int"):
+            # the forward transform and its inverse both built from the one template: two transforms in their own right - the one
+            # undoes the other, and the template (and an inverse taken from it before) is as it was
+            h_tpl = np.array(t.h_matrix, dtype=float)
+            try:
+                with taps.quiet():
+                    v1 = v0 * 1.07 + 0.013
+                    inv_before = t.pseudoinverse()
+                    fwd_ = t.from_vector(v1)
+                    h_fwd = np.array(fwd_.h_matrix, dtype=float)
+                    inv_ = t.from_vector(np.asarray(t.pseudoinverse_vector(v1)))
+                    xs_ = tx.probe(rng, d, 5)
+                    back_ = np.asarray(inv_.apply(np.asarray(fwd_.apply(xs_.copy()))), dtype=float)
+                    back0_ = np.asarray(inv_before.apply(np.asarray(t.apply(xs_.copy()))), dtype=float)
+                    cnd_ = float(np.linalg.cond(h_fwd))
+                ctx.tap("forward_and_inverse_from_one_template", "calls")
+                if cnd_ < 1e6 and np.isfinite(back_).all():
+                    ctx.tap("forward_and_inverse_from_one_template", "checked")
+                    if tx.maxdiff(np.asarray(t.h_matrix, dtype=float), h_tpl) > 0:
+                        ctx.fail("pseudoinverse_modified_the_transform", cls=type(t).__name__, mech="from_vector_or_pseudoinverse_vector_changed_the_template")
+                    elif tx.maxdiff(np.asarray(fwd_.h_matrix, dtype=float), h_fwd) > 0:
+                        ctx.fail("pseudoinverse_modified_the_transform", cls=type(t).__name__, mech="building_the_inverse_from_the_template_changed_the_forward_transform")
+                    elif not (tx.maxdiff(back_, xs_) <= 1e-8 * cnd_ * tx.BOX):
+                        ctx.fail("inverse_does_not_undo_from_the_left", cls=type(t).__name__, mech="vector_form:two_transforms_from_one_template", err=tx.maxdiff(back_, xs_))
+                    if np.isfinite(back0_).all() and not (tx.maxdiff(back0_, xs_) <= 1e-7 * max(1.0, float(np.linalg.cond(h_tpl))) * tx.BOX):
+                        ctx.fail("inverse_does_not_undo_from_the_left", cls=type(t).__name__, mech="inverse_taken_before_the_vector_calls", err=tx.maxdiff(back0_, xs_))
+            except (ValueError, NotImplementedError, np.linalg.LinAlgError):
+                pass
             for rel in (0.0, 1e-7, 3e-6, 0.05):
                 v = v0 * (1.0 + rel) + rel * 1e-3
                 try:
